@@ -144,6 +144,9 @@ prop("C17", "Calls get the written arguments; modifier chains and coalesce evalu
 ])
 
 prop("C18", "Builtin modifiers and getters compute what their documentation says", [
+    ("builtin_names_are_init_registrations", "registrations_agree_with_model", "every name and alias that init() registers (list regenerated from init.go on every run) is bound in the model to the model of the Go function it is registered with"),
+    ("no_unregistered_modifier", "model_mods_are_registered", "the model knows no built-in modifier name that init() does not register"),
+    ("no_unregistered_getter", "model_getters_are_registered", "nor getter"),
     ("default_passes_nonempty", "default_passes", "default(x) passes every non-empty value through unchanged"),
     ("default_replaces_empty", "default_replaces", "and yields x for an empty one"),
     ("emptiness_classes", "empty_classes", "what is empty: absent / null node, empty string or bytes (also as a node), zero, false; what is not"),
